@@ -275,6 +275,38 @@ func checkC07(c *Ctx) {
 		w.Seen(uint64(i))
 	})
 	replayers["C07/counts"] = replayers["C07/arbitrary"]
+	// long inputs: one envelope (and, separately, one split-marker pattern) swept across every power-of-two boundary
+	// from 2^10 to 2^17 (chunked or windowed processing of large inputs cuts somewhere)
+	bounds := []int{1 << 10, 1 << 12, 1 << 13, 1 << 14, 1 << 15, 1 << 16, 1 << 17}
+	if c.Quick() {
+		bounds = []int{1 << 12, 1 << 14, 1 << 15, 1 << 16}
+	}
+	pats := []string{mStart + "hunter2" + mEnd, mStart + mEnd, mRed, "\n" + mStart + "x\n" + mEnd}
+	const span = 14
+	c.Section("C07/boundaries", map[string]interface{}{"boundaries": bounds, "patterns": len(pats), "offsets": "boundary-12 .. boundary+1", "fillers": "plain text; text that is itself full of envelopes"}, len(bounds)*span*len(pats), func(i int, w *Worker) {
+		b, off, pat := bounds[i/(span*len(pats))], i/len(pats)%span, pats[i%len(pats)]
+		pos := b - 12 + off
+		for fill := 0; fill < 2; fill++ {
+			var x []byte
+			if fill == 0 {
+				x = append(append(bytes.Repeat([]byte("a"), pos), pat...), bytes.Repeat([]byte("t"), 40)...)
+			} else {
+				unit := []byte(mStart + "u" + mEnd + "ab")
+				x = bytes.Repeat(unit, pos/len(unit))
+				x = append(x, bytes.Repeat([]byte("c"), pos-len(x))...)
+				x = append(append(x, pat...), bytes.Repeat(unit, 8)...)
+			}
+			w.Eval()
+			if cl, d := c07Eval(x, w.Retained()); cl != "" {
+				if len(d) > 600 {
+					d = d[:300] + " … " + d[len(d)-300:]
+				}
+				w.Fail(cl, map[string]interface{}{"s": x, "boundary": b, "offset": pos}, fmt.Sprintf("pattern %q at offset %d (boundary %d) of a %d-byte input: %s", pat, pos, b, len(x), d))
+			}
+		}
+		w.Seen(uint64(i))
+	})
+	replayers["C07/boundaries"] = replayers["C07/arbitrary"]
 	// two windows from the marker look-alikes under bit masks (lead byte equal in the low nibble, continuation
 	// bytes equal in the low six bits), with text around them: a fake start is only visible with a (fake) end
 	var alias [][]byte
